@@ -50,6 +50,8 @@ impl<'a> OperationVisitor<'a, ValidationErrorContext> for KnownArgumentNames<'a>
                 ArgumentParent::Directive(&directive_def.name),
                 &directive_def.arguments,
             ));
+        } else {
+            self.current_known_arguments = None;
         }
     }
 
